@@ -368,3 +368,32 @@ func VH_C04_issued_chain_verifies_throughout_leaf_validity() {
 //verif:cover bundle read
 //verif:timeout 600
 func VH_C04_trust_store_bundle_is_read_certificate_by_certificate() { c18Bundle("C04", 2) }
+
+// Names are compared byte for byte: "Testing" is not "testing" (certificates
+// name keys, not DNS zones; a case-folding or Unicode-folding comparison lets
+// one name stand in for another).
+//
+//verif:prop C01
+//verif:bounds leaf with one name whose label is "t" + one symbolic byte; requested name "t" + one symbolic byte of the same type
+//verif:cover equal;different
+//verif:timeout 300
+func VH_C01_names_match_byte_for_byte() { c04ExactName("C01") }
+
+//verif:prop C04
+//verif:bounds as VH_C01_names_match_byte_for_byte
+//verif:cover equal;different
+//verif:timeout 300
+func VH_C04_names_match_byte_for_byte() { c04ExactName("C04") }
+
+func c04ExactName(prop string) {
+	a, b := verifU8("certified-byte"), verifU8("requested-byte")
+	leaf := &Certificate{Type: Leaf}
+	leaf.IDChunk.Blocks = []Name{{Type: TypeDNSName, Label: []byte{'t', a}}}
+	got := leaf.MatchesName(Name{Type: TypeDNSName, Label: []byte{'t', b}})
+	if a == b {
+		verifCover("equal")
+	} else {
+		verifCover("different")
+	}
+	verifAssert(got == (a == b), prop+": a requested name matches a certified name iff their labels are the same bytes (no case or Unicode folding)")
+}
